@@ -45,6 +45,12 @@ def run(ctx):
                                  "oracle_evaluations": st.get("oracle_evaluations", 0)}
     # the reconciler glue: real ConfigReconciler / PoolReconciler over edit histories vs Model/Reconciler.v
     n_rec, st_rec = reconciler_part.run_reconciler(ctx, None)
+    # ... and behind the real speaker: no handler may modify the configuration object the reconciler remembers, and an event that leaves the
+    # rendered configuration unchanged must not call SetConfig again (speaker stack harness, group spk)
+    import spk_stack_part
+    n_stack, st_stack = spk_stack_part.run_stack(ctx, sigs=spk_stack_part.CONFIG_SIGS, n_quick=24)
+    if isinstance(ctx.cov.get("correspondence"), dict):
+        ctx.cov["correspondence"]["speaker_stack_events"] = n_stack
     ctx.trusted += [
         "H-sort: proved for the exact model of Go's insertionSort_func (what sort.Slice runs for at most 12 elements: C18_go_insertion_sort_satisfies_hsort); for more than 12 objects of one kind (pdqsort) it remains the premise hsort of the C18 theorems",
         "object names within one listed kind are distinct (premise nodup_names; the API server guarantees it per namespace and MetalLB lists one namespace)",
